@@ -293,7 +293,7 @@ REPLAY_RELEVANT = {
     "C11": r"cAdd|cRm|\?pend|wStop|tStop|hEndSend|hEndStop|rCloseDone|aDone|k[A-Z]|\?kpc",
     "C12": r"rLookup|rDecode|rDeliverSlot|cRm|cAdd|cSel2|\?pend",
     "C13": r"cNew|wRecv|wNotify|wWrite|wDone|\?seq|\?wlog",
-    "C20": r"cFin|cCancelRec|nFin|hFin|rNfSel",
+    "C20": r"cFin|cCancelRec|nFin|hFin|rNfSel|\?rec|\?inc",
     # connection model (Model/Conn, mode conn)
     "C14": r"s[A-Z]|wRelease|wStart|shutdown|disconnect|\?sfirst|\?chan|\?dialing|\?client|\?spc|\?nextseq",
     "C15": r"w[A-Z]|sRelease|\?wpc|\?waiting|\?client",
@@ -311,6 +311,7 @@ REPLAY_PROMOTE = {
             "?client": "a command was executed with a client other than the published one",
             "?after": "DoCommand did not do what its decision table says after an execution"},
     "C11": {"?pend": "the pending table does not hold exactly the outstanding calls"},
+    "C20": {"?rec": "the stored size of a call record is not the bytes of its frame plus the replies received before it was finished"},
     "C09": {"?hctx": "a handler's context was (not) cancelled although the model, following the same execution, says otherwise"},
 }
 
